@@ -20,6 +20,7 @@ INJECT = {
     'in_rx_error.rs': 'src/rx_error.rs',
     'in_connectable.rs': 'src/operators/ref_count.rs',
     'in_subjects2.rs': 'src/subjects/behavior_subject.rs',
+    'in_replay_subject.rs': 'src/subjects/replay_subject.rs',
     'in_pipelines.rs': 'src/operators/zip.rs',
 }
 
